@@ -59,3 +59,49 @@ func (b *Body) textProvenance(l *Ledger) {
 	}
 	l.add("R-NUM", b.Name, "library body: text is copied whole, constant, or produced by the codec — never assembled byte by byte", "", Discharged, fmt.Sprintf("%d function(s) scanned: byte stores and single-byte appends into byte slices are reported per function", total), true)
 }
+
+// floatWidth (R-NUM, codec): a literal stored into a float of the caller's is converted at
+// the width of that float. Converting at 64 bits and storing into a float32 rounds twice
+// (1.0000000596046447753906250000000001 becomes 1 instead of 1.0000001) and rejects
+// literals that only fit once rounded at 32 bits — the decoder would no longer agree with
+// encoding/json on struct and slice destinations.
+func (b *Body) floatWidth(l *Ledger) {
+	if b.Codec == nil {
+		return
+	}
+	n := 0
+	for _, fn := range b.srcFuncs(b.Codec) {
+		allInstrs(fn, func(i ssa.Instruction) {
+			call, ok := i.(*ssa.Call)
+			if !ok {
+				return
+			}
+			f := call.Call.StaticCallee()
+			if f == nil || f.Name() != "SetFloat" || f.Pkg == nil || f.Pkg.Pkg.Path() != "reflect" || len(call.Call.Args) < 2 {
+				return
+			}
+			n++
+			key := fmt.Sprintf("%s: float store #%d is converted at the width of the destination", fname(fn), n)
+			bad := "the stored number is not the result of strconv.ParseFloat"
+			if ex, ok := call.Call.Args[1].(*ssa.Extract); ok && ex.Index == 0 {
+				if pf, ok := ex.Tuple.(*ssa.Call); ok && stdName(pf.Call.StaticCallee()) == "strconv.ParseFloat" {
+					bits := unwrapConv(pf.Call.Args[1])
+					if _, isConst := bits.(*ssa.Const); isConst {
+						bad = "strconv.ParseFloat is called with a fixed bit size: a literal stored into a float32 is rounded twice (and literals between the float32 and float64 ranges are handled differently from encoding/json)"
+					} else if bc, ok := bits.(*ssa.Call); ok && bc.Call.IsInvoke() && bc.Call.Method.Name() == "Bits" {
+						bad = ""
+					} else {
+						bad = "the bit size handed to strconv.ParseFloat is " + describeValue(bits) + ", not Type().Bits() of the destination"
+					}
+				} else if ok {
+					bad = "the stored number comes from " + calleeLabel(&pf.Call) + ", not from strconv.ParseFloat at the destination's width"
+				}
+			}
+			if bad != "" {
+				l.add("R-NUM", "codec", key, b.posOf(call), Violated, bad, true)
+			} else {
+				l.add("R-NUM", "codec", key, b.posOf(call), Discharged, "SetFloat(ParseFloat(literal, v.Type().Bits()))", true)
+			}
+		})
+	}
+}
